@@ -66,9 +66,9 @@ NoneProduct == {Mk("none", ic, ec, <<"absent", "absent">>, dt, cd, "absent", om,
                   ic \in {<<"absent", -1, -1>>, <<"yes", 2, -1>>, <<"no", -1, -1>>}, ec \in {<<"absent", "">>, <<"US-ASCII", "">>},
                   dt \in {"none", "publiconly"}, cd \in {<<>>, <<"c">>}, om \in {"default", "yes"}, eu \in {"default", "no"}}
                \cup {Mk("none", <<"absent", -1, -1>>, <<"absent", "">>, <<"yes", "no">>, "none", <<>>, "1.0", "default", "default")}
-HtmlProduct == {Mk("html", ic, ec, <<"absent", "absent">>, dt, <<>>, "absent", om, eu) :
+HtmlProduct == {Mk("html", ic, ec, <<"absent", "absent">>, dt, cd, "absent", om, eu) :
                   ic \in {<<"absent", -1, -1>>, <<"no", -1, -1>>, <<"absent", -1, 3>>}, ec \in EncCfgs \ {<<"UTF-16", "US-ASCII">>},
-                  dt \in {"none", "public"}, om \in Overrides, eu \in Overrides}
+                  dt \in {"none", "public"}, cd \in {<<>>, <<"c">>}, om \in Overrides, eu \in Overrides}
 TextProduct == {Mk("text", ic, ec, <<"absent", "absent">>, "none", <<>>, "absent", "default", "default") :
                   ic \in {<<"absent", -1, -1>>, <<"yes", 2, -1>>}, ec \in EncCfgs}
 OptionProduct == XmlProduct \cup NoneProduct \cup HtmlProduct \cup TextProduct
